@@ -16,7 +16,8 @@ EXPLANATION = ("Async lru_cache: every removal from the entry mapping removes a 
                "position and are served only if not expired; eviction scans from the least recently used end; the key covers positional "
                "arguments, keyword items behind a separator and, when typed, the argument types; the value returned is the wrapped call's "
                "result or the stored value."
-               " The method wrapper passes the bound instance exactly when it is not None and forwards all arguments.")
+               " The method wrapper passes the bound instance exactly when it is not None and forwards all arguments."
+               " The event loop's run-variable store (which holds the cache) is never dropped wholesale.")
 NOT_DECIDED = ("Histories of calls (which caller sees which value over time), hashing/equality of user keys, behaviour of cache_clear() racing "
                "with in-flight calls, per-event-loop storage (RunVar).")
 
